@@ -205,11 +205,11 @@ func runC21(c *eng.Ctx) {
 
 	// R3.
 	allowedRaw := map[string]string{
-		"(*synchronization/endpoint/remote.endpointClient).encodeAndFlush":   "flushes",
-		"(*synchronization/endpoint/remote.endpointServer).encodeAndFlush":   "flushes",
-		"(*synchronization/endpoint/remote.protobufRsyncEncoder).Encode":     "rsync stream, flushed by Finalize (owns the flusher)",
-		"synchronization/endpoint/remote.NewEndpoint":                        "handshake, followed by an explicit Flush (checked)",
-		"synchronization/endpoint/remote.ServeEndpoint":                      "handshake, followed by an explicit Flush (checked)",
+		"(*synchronization/endpoint/remote.endpointClient).encodeAndFlush": "flushes",
+		"(*synchronization/endpoint/remote.endpointServer).encodeAndFlush": "flushes",
+		"(*synchronization/endpoint/remote.protobufRsyncEncoder).Encode":   "rsync stream, flushed by Finalize (owns the flusher)",
+		"synchronization/endpoint/remote.NewEndpoint":                      "handshake, followed by an explicit Flush (checked)",
+		"synchronization/endpoint/remote.ServeEndpoint":                    "handshake, followed by an explicit Flush (checked)",
 	}
 	n3 := 0
 	for _, fn := range fns {
